@@ -53,7 +53,8 @@ def hz(rng, tag, allow=no_instance, ws=True):
 
 
 def make_form(rng, i):
-    langs = rng.choice([[], [], ["English (en)", "French (fr)"], ["en"]])
+    # (languages called like fields the library keeps on every element - study arms 'control' / 'treatment', a language 'type' - are languages like any other)
+    langs = rng.choice([[], [], ["English (en)", "French (fr)"], ["en"], ["control", "treatment"], ["bind", "parent"], ["type", "name"], ["extra_data", "label"]])
     cfg = common.rich_cfg(rng, langs=langs, hostile_text=False, p_hint=0.6, p_guidance=0.3, p_constraint=0.5, p_constraint_msg=0.9, p_required=0.4,
                           p_required_msg=0.8, p_label_ref=0, p_choice_extra=0.7, p_default=0, p_choice_media=0, p_media=0, p_or_other=0,
                           p_search=0, p_trigger=0, p_bind_extra=0, p_instance_extra=0, p_body_extra=0, p_appearance=0, p_msg_ref=0, delim="::")
@@ -291,6 +292,19 @@ def check(ctx, form, sig, fmt="dict", sample=False):
     ctx.case(sig=f"{sig}|{fmt}")
     rm = refmodel.RM(form)
     wit = lambda **kw: common.witness(form, fmt=fmt, **kw)  # noqa: E731
+    # reading the survey (its JSON dump, an equality test) is no edit: the document rendered afterwards still carries every text
+    sv_ = getattr(getattr(o, "result", None), "_survey", None)
+    if sv_ is not None and fmt == "dict":
+        try:
+            sv_.to_json_dict()
+            _same = sv_ == sv_  # noqa: PLR0124 - exercises __eq__, which dumps both sides
+            again = sv_.to_xml(validate=False, pretty_print=False)
+            ctx.ctr("rendered_again_after_dump")
+            if again != o.xform:
+                ctx.viol("text:lost-after-json-dump-of-the-survey", "to_json_dict() and == on the survey, then to_xml(): the document differs from the one convert() returned: "
+                         + "; ".join(__import__("vlib.xdiff", fromlist=["diffs"]).diffs(o.xform, again)[:2])[:500], wit())
+        except Exception as e:  # noqa: BLE001
+            ctx.viol("text:dump-then-render-raised", f"{type(e).__name__}: {e}"[:300], wit())
     D = default_language(form)
     trs, _ = p.itext()
     table = {t[0]: t[2] for t in trs}
